@@ -394,7 +394,16 @@ def rule_tables(ctx, R):
     if R.anchor(len(ends) == 1, "end_table", "6-character end table"):
         e = ends[0]
         R.check(e == "엉앙앗읏읍윽" and all(len(c.encode()) == 3 for c in e), "tables:end", "end table lists the end syllables of kinds 0..5 in order, 3 bytes each")
-        R.check("앙앗" in strs and "읏읍윽" in strs and "엉" in strs, "tables:end_classes", "per-class end tables: 엉 | 앙앗 | 읏읍윽 (kinds 0 | 1-2 | 3-5)")
+        chars = set("".join(strs))
+        for bi2, t2 in b.calls():
+            pass
+        for blk in b.blocks:
+            for st in blk["stmts"]:
+                r = st.get("r", {})
+                for x in ([r.get("x")] if r.get("k") == "use" else [r.get("l"), r.get("r")] if r.get("k") == "bin" else []):
+                    if isinstance(x, dict) and x.get("k") == "const" and x.get("ty") == "char" and "int" in x:
+                        chars.add(chr(int(x["int"])))
+        R.check(all(c in chars for c in "엉앙앗읏읍윽"), "tables:end_classes", "every end syllable 엉 앙 앗 읏 읍 윽 is recognised while counting syllables")
     R.check(".…⋯⋮" in strs, "tables:dots", "dot table is . … ⋯ ⋮")
     hearts = const_chars(fb, "hyeong::core::parse::HEARTS")
     R.check(hearts is not None and len(hearts) == 12 and len(set(hearts)) == 12 and hearts[-1] == "♡", "tables:hearts", "HEARTS has 12 distinct characters ending with ♡ (types 2..13): %s" % hearts)
